@@ -31,7 +31,7 @@ STRATEGIES = {
     "jit": {"use_tf_function": True, "jit_compile": True},
 }
 TRACED = ("tf_function", "tf_function_noid", "jit")
-OPS = ["set_params", "eval", "eval", "eval_new_object", "eval_reordered", "select_and_back", "select", "reset", "coords", "mask", "nll", "nll", "toy_loop", "nll_fault", "iterate_alone"]
+OPS = ["set_params", "eval", "eval", "eval_new_object", "eval_reordered", "second_model", "select_and_back", "select", "reset", "coords", "mask", "nll", "nll", "toy_loop", "nll_fault", "iterate_alone"]
 
 RULE = (
     "sessions are generated from the seed: card x strategy option set x 3..8 operations applied in lock-step to a default eager reference model "
@@ -120,6 +120,9 @@ def generate(job):
         if k == "toy_loop":
             op["reuse"] = ro.chance(0.6)
         ops.append(op)
+    if klass in ("traced", "jit") and rm.chance(0.4):
+        # directed: two compiled models in one process
+        ops = ops[:2] + [{"k": "second_model", "i": 0, "seed": ro.randrange(1 << 30), "d": "A"}] + ops[2:4]
     bg, sbatch = rm.chance(0.4), rm.choice([65000, 3, 4])
     if strategy == "lazy_call" and rm.chance(0.6):
         # directed: lazily batched samples (data + background) whose pieces are also batched on their own, in
@@ -220,6 +223,30 @@ class Session:
         elif k == "eval_new_object":
             self.Ds[op["d"]] = self.make(self.sut, self.p[op["d"]])
             self.compare_density(op["d"], "eval(new equal object)")
+        elif k == "second_model":
+            # a second, independent model with the same strategy options lives in the same process (a second
+            # ConfigLoader: another decay card, its own parameters and events); both are evaluated alternately
+            from sim.seams import rng_seam
+
+            if getattr(self, "other", None) is None:
+                rs2 = Stream(op["seed"], "card2")
+                # same decay topology (same number of data tensors), other masses / spins / couplings
+                card2 = cards.make_card(rs2, "S3", n_res=min(3, max(2, len(self.resnames))))
+                extra = {"bg_weight": 0.3} if self.spec.get("bg") else {}
+                ref2 = cards.build(card2, dict(extra))
+                sut2 = cards.build(card2, dict(STRATEGIES[self.spec["strategy"]], **extra))
+                cards.randomize_params(ref2.get_amplitude(), rs2.child("p"), 0.7)
+                sut2.get_amplitude().set_params({kk: float(v) for kk, v in ref2.get_amplitude().get_params().items()})
+                with rng_seam(op["seed"]):
+                    p2 = ref2.generate_phsp_p(self.spec["nA"])
+                self.other = (ref2.get_amplitude(), sut2.get_amplitude(), self.make(ref2, p2), self.make(sut2, p2), ref2, sut2)
+                self.log.count("probe.second_model_in_process")
+            r2, s2, dr2, ds2 = self.other[:4]
+            for rep in range(2):  # make sure the first model has been through its compiled path as well
+                self.compare_density(op["d"], "eval")
+            for rep in range(2):  # the second look at the same data object takes the compiled path
+                self.same(s2(ds2), r2.pdf(dr2), "density", "eval(second model of the process)", 1e-9)
+            self.compare_density(op["d"], "eval(first model after the second one was used)")
         elif k == "eval_reordered":
             # the same sample in a dictionary whose (nested) keys were inserted in another order - what
             # data_merge (iterates a set: follows the hash seed), a cache file of another run or a hand-built
